@@ -20,7 +20,9 @@ CONSTANTS
   CVals,     \* element values
   CMaxNE,    \* operands with more elements are skipped
   WithC,   \* TRUE: enumerate triples (laws); FALSE: pairs only (c = a)
-  CEmit
+  CEmit,
+  DoubleSem  \* TRUE: the values are read as floating-point numbers: 2 stands for -0.0 (equal to 0, which is +0.0)
+             \* and 3 for a NaN (equal to nothing, not even itself; unordered)
 
 VARIABLES a, b, c
 cvars == <<a, b, c>>
@@ -36,11 +38,17 @@ Sub(x, i) ==
   LET m == Prod(Tail(x.shape)) IN
   [shape |-> Tail(x.shape), val |-> SubSeq(x.val, i * m + 1, (i + 1) * m)]
 
-Eq(x, y) == x.shape = y.shape /\ x.val = y.val
+Norm(u)  == IF DoubleSem /\ u = 2 THEN 0 ELSE u
+IsNaN(u) == DoubleSem /\ u = 3
+VEq(u, v) == ~IsNaN(u) /\ ~IsNaN(v) /\ Norm(u) = Norm(v)
+VLt(u, v) == ~IsNaN(u) /\ ~IsNaN(v) /\ Norm(u) < Norm(v)
+HasNaN(x) == \E i \in 1..Len(x.val) : IsNaN(x.val[i])
+
+Eq(x, y) == x.shape = y.shape /\ \A i \in 1..Len(x.val) : VEq(x.val[i], y.val[i])
 
 RECURSIVE Lt(_, _)
 Lt(x, y) ==
-  IF x.shape = <<>> THEN x.val[1] < y.val[1]
+  IF x.shape = <<>> THEN VLt(x.val[1], y.val[1])
   ELSE LET nx == x.shape[1]  ny == y.shape[1]  n == Min2(nx, ny)
            \* first position where the items differ in the order
            Diff == {k \in 0..(n - 1) : Lt(Sub(x, k), Sub(y, k)) \/ Lt(Sub(y, k), Sub(x, k))}
@@ -51,7 +59,7 @@ Le(x, y) == Lt(x, y) \/ Eq(x, y)
 Gt(x, y) == Lt(y, x)
 Ge(x, y) == Lt(y, x) \/ Eq(x, y)
 
-NonEmpty(x) == Prod(x.shape) > 0
+NonEmpty(x) == Prod(x.shape) > 0 /\ ~HasNaN(x)    \* "ordered": the order laws are stated for operands with totally ordered elements
 
 CInit == a \in Operands /\ b \in Operands /\ c \in (IF WithC THEN Operands ELSE {a})
 CNext == UNCHANGED cvars
@@ -63,6 +71,7 @@ Trichotomy ==
   (NonEmpty(a) /\ NonEmpty(b)) =>
      Cardinality({k \in 1..3 : (k = 1 /\ Lt(a, b)) \/ (k = 2 /\ Eq(a, b)) \/ (k = 3 /\ Lt(b, a))}) = 1
 Irreflexive == ~Lt(a, a)
+EqReflexiveUnlessNaN == HasNaN(a) \/ Eq(a, a)
 Antisymmetric == ~(Lt(a, b) /\ Lt(b, a))
 Transitive == (NonEmpty(a) /\ NonEmpty(b) /\ NonEmpty(c)) => ((Lt(a, b) /\ Lt(b, c)) => Lt(a, c))
 EqTransitive == (Eq(a, b) /\ Eq(b, c)) => Eq(a, c)
@@ -72,6 +81,7 @@ LeGeConsistent ==
 B(x) == IF x THEN 1 ELSE 0
 CExpect == [D |-> CD, a |-> a, b |-> b,
             ops |-> <<B(Eq(a, b)), B(~Eq(a, b)), B(Lt(a, b)), B(Le(a, b)), B(Gt(a, b)), B(Ge(a, b))>>,
-            ordered |-> B(NonEmpty(a) /\ NonEmpty(b))]
+            ordered |-> B(NonEmpty(a) /\ NonEmpty(b)),
+            nan |-> B(HasNaN(a) \/ HasNaN(b))]
 CEmitC == (~CEmit) \/ PrintT(ToJson(CExpect))
 =============================================================================
